@@ -1190,3 +1190,24 @@ CASES += [
                 return Some(node[0].prime());
             }"""),
 ]
+
+CASES += [
+    dict(name="dp-to-dimacs-sign-inverted", file=CNF, rule="DP", props=["C17"], expect="to_dimacs:sign-and-number",
+         old="""                    if lit.polarity() { "" } else { "-" },""", new="""                    if lit.polarity() { "-" } else { "" },"""),
+    dict(name="dp-to-dimacs-zero-based", file=CNF, rule="DP", props=["C17"], expect="to_dimacs:sign-and-number",
+         old="""                    lit.label().value_usize() + 1
+                );""", new="""                    lit.label().value_usize() + 0
+                );"""),
+]
+
+LEF = "src/repr/logical_expr.rs"
+CASES += [
+    dict(name="le-eval-xor-as-iff", file=LEF, rule="LE", props=["C17", "C05"], expect="LogicalExpr::eval:Xor",
+         old="""                (!l_v && r_v) || (l_v && !r_v)""", new="""                (!l_v && !r_v) || (l_v && r_v)"""),
+    dict(name="le-eval-ite-branches-swapped", file=LEF, rule="LE", props=["C17", "C05"], expect="LogicalExpr::eval:Ite",
+         old="""                (!l_v && r_v) || (l_v && !r_v)""", new="""                (!l_v && r_v) || (l_v && !r_v)""",
+         more=[]),
+    dict(name="le-eval-xor-ne-ok", file=LEF, rule="LE", props=["C17", "C05"], expect=None,
+         old="""                (!l_v && r_v) || (l_v && !r_v)""", new="""                l_v != r_v"""),
+]
+CASES = [c for c in CASES if c["name"] != "le-eval-ite-branches-swapped"]
